@@ -324,8 +324,11 @@ namespace Pistache
 
         Entry* pop() override
         {
-            auto ret = Queue<T>::pop();
-
+            // Consume the notifications *before* looking at the queue: a push that
+            // lands after this point leaves its notification pending, so the poller
+            // wakes up again for it. (Draining after the pop would swallow the
+            // notification of an item pushed in between, and the consumer would go
+            // back to sleep with that item queued.)
             if (isBound())
             {
                 uint64_t val;
@@ -345,7 +348,7 @@ namespace Pistache
                 }
             }
 
-            return ret;
+            return Queue<T>::pop();
         }
 
         Polling::Tag tag() const
